@@ -213,6 +213,59 @@ def describe(ops, obs):
     return {"ops": [list(map(str, o)) for o in ops], "observed": [{k: (v if k != "defaults" else None) for k, v in ob.items() if k in ("res", "au", "ap")} for ob in obs]}
 
 
+def shadow_probes(w, rng, tier):
+    """built-ins cannot be shadowed — also not by a user-defined class that DERIVES from a built-in class (a user's variant of the
+    resistor, say) and asks for the symbol of its parent or of another built-in: registration is refused, every symbol still maps
+    to its built-in class, parse_cdc still builds the built-in, and after remove_elements(variant) / reset nothing is missing"""
+    import pyimpspec
+    from pyimpspec.circuit.registry import ElementDefinition, ParameterDefinition
+    bad = []
+    rows = [r for r in w.rows if not r["container"]]
+    picks = rows if tier != "quick" else rng.sample(rows, min(6, len(rows)))
+    for row in picks:
+        parent = row["cls"]
+        psym = row["symbol"]
+        keys = row["keys"]
+        variant = type("Variant" + parent.__name__, (parent,), {})
+        other = rng.choice([r for r in w.rows if r["cls"] is not parent])["symbol"]
+        for sym in (psym, other):
+            w.restore()
+            before = dict(pyimpspec.get_elements(default_only=False, private=True))
+            d = ElementDefinition(Class=variant, symbol=sym, name="variant", description="a user's variant of a built-in element",
+                                  equation=getattr(parent, "_equation", "R"),
+                                  parameters=[ParameterDefinition(symbol=k, unit="", description=k, value=float(parent.get_default_values()[k]),
+                                                                  lower_limit=float(parent.get_default_lower_limits()[k]),
+                                                                  upper_limit=float(parent.get_default_upper_limits()[k]),
+                                                                  fixed=bool(parent.are_fixed_by_default()[k])) for k in keys])
+            try:
+                pyimpspec.register_element(d)
+                refused = False
+            except Exception:  # noqa
+                refused = True
+            after = dict(pyimpspec.get_elements(default_only=False, private=True))
+            desc = dict(parent=parent.__name__, requested_symbol=sym)
+            if not refused:
+                bad.append((desc, "register_element accepted a user-defined class derived from a built-in under the symbol of a built-in"))
+            elif any(after.get(k) is not v for k, v in before.items()) or len(after) != len(before):
+                bad.append((desc, "the refused registration changed the registry"))
+            else:
+                try:
+                    el = pyimpspec.parse_cdc(sym).get_elements()[0]
+                    if type(el) is not before[sym]:
+                        bad.append((desc, "parse_cdc('%s') builds %s" % (sym, type(el).__name__)))
+                except Exception as e:  # noqa
+                    bad.append((desc, "parse_cdc('%s') raised %s" % (sym, type(e).__name__)))
+            try:
+                pyimpspec.circuit.registry.remove_elements(variant)
+            except Exception:  # noqa
+                pass
+            final = dict(pyimpspec.get_elements(default_only=False, private=True))
+            if any(final.get(k) is not v for k, v in before.items()) and refused:
+                bad.append((desc, "a built-in symbol is missing after remove_elements(variant)"))
+    w.restore()
+    return bad, len(picks) * 2
+
+
 def run(rep, tier, seed, tr_errors):
     rng = random.Random(seed)
     w = World()
@@ -262,6 +315,16 @@ def run(rep, tier, seed, tr_errors):
     rep.oblige("correspondence:Registry.v-vs-registry.py", not mism and not broken, "%d histories, %d mismatches, %d shards failed" % (len(cases), len(mism), len(broken)))
     rep.oblige("property-on-observed-histories", not viol, "%d histories" % len(viol))
     rep.extra["traces_validated_against_impl"] = len(cases)
+    try:
+        sbad, sn = shadow_probes(w, rng, tier)
+    except Exception as e:  # noqa
+        sbad, sn = [(dict(probe="shadow_probes"), "harness error %s: %s" % (type(e).__name__, str(e)[:200]))], 0
+    rep.evaluations += sn
+    rep.oblige("built-ins-cannot-be-shadowed-by-classes-derived-from-built-ins", not sbad, "%d attempts, %d problems" % (sn, len(sbad)))
+    for n_, (desc, why) in enumerate(sbad[:3]):
+        desc = dict(desc)
+        desc["observed"] = why
+        rep.violation("shadow_%d" % n_, {"kind": "counterexample", "obligation": "built-ins cannot be removed or shadowed", "input": desc})
     by = {c[0]: c for c in cases}
     for j in sorted(set(viol), key=lambda k: len(by[k][1]))[:3]:
         rep.violation("counterexample_%d" % j, {"kind": "counterexample", "obligation": "registry restorable / built-ins preserved / bad definitions refused", "input": describe(by[j][1], by[j][2])})
